@@ -627,9 +627,11 @@ class vacancyThermoKinetics(collections.namedtuple('vacancyThermoKinetics',
 
     def __eq__(self, other):
         # Note: could scale all prefactors by min(pre) and subtract all energies by min(ene)...?
+        # exact comparison, consistent with __hash__ (which hashes the bytes): these objects are dictionary keys,
+        # where a tolerance-based equality with a byte-based hash never matches anyway
         return isinstance(other, self.__class__) and \
-               np.allclose(self.pre, other.pre) and np.allclose(self.betaene, other.betaene) and \
-               np.allclose(self.preT, other.preT) and np.allclose(self.betaeneT, other.betaeneT)
+               np.array_equal(self.pre, other.pre) and np.array_equal(self.betaene, other.betaene) and \
+               np.array_equal(self.preT, other.preT) and np.array_equal(self.betaeneT, other.betaeneT)
 
     def __ne__(self, other):
         return not self.__eq__(other)
